@@ -540,6 +540,14 @@ def r13(ck, F):
             ck.bad("C13.R13", key, where(b.raw["sp"]), "the stored text is shortened or replaced (%s)" % (shrink or "assignment to .fields"), fn=b.path)
         else:
             ck.ok("C13.R13", key, fn=b.path)
+        # ... and the new values are actually visited: every returning path hands the record to a visitor (record) or to
+        # format_fields, which does
+        visits = [any(c[1].get("method") in ("record", "format_fields") for c in pth.calls) for pth in PathEval(b).run() if pth.end == "return"]
+        kv = "%s visits the values being recorded" % nm
+        if visits and all(visits):
+            ck.ok("C13.R13", kv, fn=b.path)
+        else:
+            ck.bad("C13.R13", kv, where(b.raw["sp"]), "%d of %d returning paths never hand the record to a visitor: values recorded after the span was created never show up" % (visits.count(False), len(visits)), fn=b.path)
         # ... separated from what is already there: a separator is pushed exactly when the stored text is non-empty
         rows = {}
         for pth in PathEval(b).run():
@@ -641,9 +649,15 @@ def r17(ck, F):
                "aborts the process -- the record is never written", fn=b.path)
     elif soft:
         # ... and the formatting work is also done on the failure path: the closure is called outside try_with as well
-        fallback = [bb for bb, t in b.calls() if bb not in [x[0] for x in soft] and "{closure" in str(t["callee"].get("path", "")) + str(t["callee"].get("full", ""))] or \
-            [bb for bb, t in b.calls() if t["callee"].get("method") in ("call", "call_once", "call_mut")]
-        if fallback or len(soft) >= 1 and len(F.closures_of(b)) >= 2:
+        # on the path where try_with failed, the formatting closure is called directly (with no buffer)
+        fallback = False
+        for pth in PathEval(b).run():
+            failed = any((show(c[0]).startswith("is_err(try_with(") and c[1] != 0) or (show(c[0]).startswith("is_ok(try_with(") and c[1] == 0) or
+                         (show(c[0]).startswith("discr(try_with(") and c[1] == 1) for c in pth.conds)
+            if failed and pth.end == "return" and any("on_event::{closure" in str(c[1].get("path", "")) + str(c[1].get("full", "")) or c[1].get("method") in ("call", "call_once", "call_mut")
+                                                      for c in pth.calls if c[1].get("method") != "try_with"):
+                fallback = True
+        if fallback:
             ck.ok("C13.R17", key, fn=b.path)
         else:
             ck.bad("C13.R17", key, where(b.raw["sp"]), "try_with's failure is not followed by formatting into a fresh buffer: the record is silently lost", fn=b.path)
